@@ -260,7 +260,7 @@ def c15_fc(ids, role):
     return f
 
 
-def o3_build(chk, prog, ids, role):
+def o3_build(chk, prog, ids, role, prop='C15'):
     """accepted => servable, end to end: the real Pool::validate, then (if accepted) the real ConnectionPool::from_config."""
     from checks import fromconfig as FC
     name = 'O3-build-ids[%s]-role[%s]' % (','.join(ids), role)
@@ -286,7 +286,7 @@ def o3_build(chk, prog, ids, role):
         FC.install(ip_, cfg)
 
         def rep(what):
-            chk.report(ob, 'C15/O3/' + what.split(':')[0], 'accepted pool (shard ids %r, default_role %r) %s' % (ids, role, what),
+            chk.report(ob, prop + '/O3/' + what.split(':')[0], 'accepted pool (shard ids %r, default_role %r) %s' % (ids, role, what),
                        {'shard_ids': list(ids), 'default_role': role},
                        {'commands': [{'op': 'from_config_probe', 'shard_ids': list(ids), 'servers': 1, 'default_role': role}], 'expect': ['c15_fc', list(ids), role]})
         try:
